@@ -340,6 +340,9 @@ class Function:
                  "CXXReinterpretCastExpr"):
             return "(%s)%s" % (n.get("t"), R(c[0]))
         if k == "DeclRefExpr":
+            nm = getattr(self, "_names", None)
+            if nm and n["decl"].get("id") in nm and n["decl"]["kind"] in ("Var", "ParmVar"):
+                return nm[n["decl"]["id"]]
             return n["decl"]["name"]
         if k == "MemberExpr":
             b = R(c[0]) if c else "this"
@@ -412,6 +415,39 @@ class Function:
         if c:
             return "%s(%s)" % (k, ", ".join(R(x) for x in c))
         return k
+
+    def alpha(self, i):
+        """render with locals renamed v0, v1, ... by first occurrence and parameters renamed $k by position:
+        insensitive to renaming of locals.  Returns (text, [decl ids in order of first occurrence])."""
+        order = []
+        names = {}
+        pidx = {p["id"]: k for k, p in enumerate(self.params)}
+        for x in self.walk(i):
+            n = self.nodes[x]
+            if n["k"] == "DeclRefExpr":
+                d = n["decl"]
+                if d["kind"] == "ParmVar" and d["id"] in pidx:
+                    names[d["id"]] = "$%d" % pidx[d["id"]]
+                elif d["kind"] == "Var" and d["id"] not in names:
+                    names[d["id"]] = "v%d" % len(order)
+                    order.append(d["id"])
+        self._names = names
+        try:
+            t = self.render(i)
+        finally:
+            self._names = None
+        return t.replace("this->", ""), order
+
+    def var_name(self, vid):
+        for x in self.walk():
+            n = self.nodes[x]
+            if n["k"] == "DeclRefExpr" and n["decl"].get("id") == vid:
+                return n["decl"]["name"]
+            if n["k"] == "DeclStmt":
+                for d in n["decls"]:
+                    if d.get("id") == vid:
+                        return d["name"]
+        return None
 
     # ---- CFG
     @property
